@@ -1889,24 +1889,41 @@ func c17LibraryClock(p *core.Program, r *core.Report, rule string) {
 		return
 	}
 	// the offset: the package-level variable SetDelta assigns
-	var offset types.Object
-	if sd := p.Func("util/dateutil", "SetDelta"); sd != nil && sd.Decl.Body != nil {
-		ast.Inspect(sd.Decl.Body, func(n ast.Node) bool {
-			if as, ok := n.(*ast.AssignStmt); ok {
-				for _, l := range as.Lhs {
-					if id := rootOf(l); id != nil {
-						if v, ok := sd.Pkg.TypesInfo.ObjectOf(id).(*types.Var); ok && v.Pkg() != nil && v.Parent() == v.Pkg().Scope() {
-							offset = v
+	// the offset: what SetDelta assigns — a package-level variable, or a field of a clock object the
+	// package keeps (followed through the unexported functions SetDelta calls)
+	offsets := map[types.Object]bool{}
+	var collect func(fi *core.FuncInfo, depth int)
+	collect = func(fi *core.FuncInfo, depth int) {
+		if fi == nil || fi.Decl.Body == nil || depth > 3 {
+			return
+		}
+		info := fi.Pkg.TypesInfo
+		ast.Inspect(fi.Decl.Body, func(n ast.Node) bool {
+			switch x := n.(type) {
+			case *ast.AssignStmt:
+				for _, l := range x.Lhs {
+					switch lv := ast.Unparen(l).(type) {
+					case *ast.Ident:
+						if v, ok := info.ObjectOf(lv).(*types.Var); ok && v.Pkg() != nil && v.Parent() == v.Pkg().Scope() {
+							offsets[v] = true
+						}
+					case *ast.SelectorExpr:
+						if v, ok := info.ObjectOf(lv.Sel).(*types.Var); ok && (v.IsField() || (v.Pkg() != nil && v.Parent() == v.Pkg().Scope())) {
+							offsets[v] = true
 						}
 					}
+				}
+			case *ast.CallExpr:
+				if fn := calleeFunc(info, x); fn != nil && fn.Pkg() == fi.Obj.Pkg() && !fn.Exported() {
+					collect(p.FuncOf(fn), depth+1)
 				}
 			}
 			return true
 		})
 	}
-	if offset == nil {
-		r.Undec(rule, "util/dateutil.SetDelta", "-", "the clock offset variable was not found")
-		return
+	collect(p.Func("util/dateutil", "SetDelta"), 0)
+	if len(offsets) == 0 {
+		r.Undec(rule, "util/dateutil.SetDelta", "-", "what SetDelta assigns (the clock offset) was not found")
 	}
 	// per dateutil function: does it reach time.Now with / without the offset read on the way
 	type st struct{ reaches, offsetRead bool }
@@ -1925,7 +1942,7 @@ func c17LibraryClock(p *core.Program, r *core.Report, rule string) {
 		ast.Inspect(fi.Decl.Body, func(n ast.Node) bool {
 			switch x := n.(type) {
 			case *ast.Ident:
-				if info.Uses[x] == offset {
+				if offsets[info.Uses[x]] {
 					s.offsetRead = true
 				}
 			case *ast.CallExpr:
@@ -1966,7 +1983,7 @@ func c17LibraryClock(p *core.Program, r *core.Report, rule string) {
 			if fn := calleeFunc(info, call); fn != nil && fn.Pkg() != nil && fn.Pkg() == du.Types {
 				if cf := p.FuncOf(fn); cf != nil {
 					s := visit(cf, 0)
-					if s.reaches && !s.offsetRead {
+					if s.reaches && !s.offsetRead && len(offsets) > 0 {
 						r.Viol(rule, c+" reads "+fn.Name(), p.Pos(call.Pos()), "dateutil."+fn.Name()+" reads the clock without the offset SetDelta/SetServerTime maintain: this use (the repeat limiter, rotation, retention) does not follow the library clock the rest of the logger goes by")
 					} else if s.reaches {
 						r.OK(rule, c+" reads "+fn.Name(), p.Pos(call.Pos()), "library clock (offset applied)")
